@@ -55,6 +55,11 @@ def expected_dict(m):
     if m["kind"] == "fptr":
         d["declarator"] = dict(pointer=ptrs, func=dict(pointer=[dict(ptr="*", const=False, volatile=False)], name=m["name"]))
         d["params"] = [expected_dict(p) for p in m["params"]]
+    elif m["kind"] == "parr":
+        d["declarator"] = dict(pointer=ptrs, func=dict(pointer=[dict(ptr="*", const=bool(m.get("inner_const")), volatile=False)],
+                                                       name=m["name"]))
+        d["params"] = None
+        d["array"] = list(m["array"])
     else:
         if m.get("name") is None and not ptrs:
             d["declarator"] = None
@@ -96,7 +101,7 @@ def observed_dict(t):
             d["func_const"] = t.get("func_const") in (True, "True")
     else:
         d["params"] = None
-    if not (dec and "func" in dec):
+    if not (dec and "func" in dec) or "array" in t:
         d["array"] = [a.get("constant") if isinstance(a, dict) and "constant" in a else repr(a) for a in t.get("array", [])]
     d["attrs"] = {k: str(v) for k, v in (t.get("attrs") or {}).items() if not k.startswith("_")}
     init = t.get("init")
@@ -180,6 +185,8 @@ def model_var_text(m, name):
     if m["kind"] == "fptr":
         ps = ", ".join(model_var_text(p, p.get("name") or "") for p in m["params"])
         return "%s (*%s)(%s)" % (s, name, ps)
+    if m["kind"] == "parr":
+        return "%s (*%s%s)%s" % (s, "const " if m.get("inner_const") else "", name, "".join("[%s]" % a for a in m["array"]))
     s += " " + name
     for a in m.get("array") or []:
         s += "[%s]" % a
